@@ -262,7 +262,7 @@ pub fn run(args: &Args) {
             finish(&ev);
         }
     }
-    let n = std::env::var("VERIF_CASES").ok().and_then(|s| s.parse().ok()).unwrap_or(args.tier.pick(40_000u32, 1_000_000u32));
+    let n = std::env::var("VERIF_CASES").ok().and_then(|s| s.parse().ok()).unwrap_or(args.tier.pick(300_000u32, 5_000_000u32));
     let evc = RefCell::new(&mut ev);
     let res = search(args.seed, n, &tape_strategy(220), |tape| {
         let case = build(tape);
